@@ -173,7 +173,7 @@ func (f *TermFactory) mk(op Op, w int, c uint64, name string, a, b, d *Term) *Te
 			// multiplication by a constant bit-blasts into a few adders; only long
 			// chains (decimal conversion of many digits) defeat bit-blasting
 			t.md++
-			if t.md > 6 {
+			if t.md > 2 {
 				t.hard = true
 			}
 		default:
